@@ -10,6 +10,7 @@ Three specifications (spec/xs):
 Expected values always come from TLC (printed JSON); this file only builds, applies, projects and compares.
 """
 import contextlib
+import copy
 import json
 import math
 import os
@@ -420,7 +421,7 @@ def run_case(case, pool):
     return out
 
 
-REP_QUICK_SAMPLE = {"dens": 1200, "temp": 800, "burn": 1200, "kind": 800, "tri": 1600, "cyl": 1200, "cyl3": 600, "lfp": 300, "ord": 300, "perm": 600, "sym": 1500}
+REP_QUICK_SAMPLE = {"dens": 1000, "temp": 700, "burn": 1000, "kind": 700, "tri": 1300, "cyl": 1000, "cyl3": 500, "lfp": 300, "ord": 300, "perm": 500, "sym": 1200}
 
 
 def check_rep(rep, tier, seed):
@@ -496,12 +497,22 @@ def check_rep(rep, tier, seed):
 # ------------------------------------------------------------------------------------------------------------
 REFUSAL_TEXT = "mixture of zero and non-zero weighting factors"
 BOOKKEEPING = ("envGroup", "envGroupNum")  # refreshed by the manager-level calls by specification
+TYPE_PARAMS = ("xsType", "xsTypeNum")  # re-assigned on the listed blocks by createRepresentativeBlocksUsingExistingBlocks
 
 
-def block_fingerprint(b):
+def block_fingerprint(b, skip=BOOKKEEPING):
     f = fingerprint(b)
     head = f[0]
-    return ((head[0], head[1], tuple(kv for kv in head[2] if kv[0] not in BOOKKEEPING), head[3]), f[1], f[2])
+    return ((head[0], head[1], tuple(kv for kv in head[2] if kv[0] not in skip), head[3]), f[1], f[2])
+
+
+def without(fp, skip):
+    head = fp[0]
+    return ((head[0], head[1], tuple(kv for kv in head[2] if kv[0] not in skip), head[3]), fp[1], fp[2])
+
+
+def w_dirty(ad, name):
+    return name in ad._dirty
 
 
 class ManagerAdapter:
@@ -509,6 +520,8 @@ class ManagerAdapter:
         armi_ready()
         self.scn = scenarios
         self._cs = {}
+        self._cskeys = {}
+        self._dirty = set()
         self._worlds = {}
 
     def settings(self, name):
@@ -528,6 +541,8 @@ class ManagerAdapter:
             self._cs[name] = settings.Settings().modified(newSettings={
                 "buGroups": list(s["bub"]), "tempGroups": list(s["tb"]), "xsBlockRepresentation": s["grep"],
                 "disableBlockTypeExclusionInXsGeneration": s["gfilter"] == "all", "crossSectionControl": ctl})
+            self._cs[name]["crossSectionControl"].setDefaults(s["grep"], s["gfilter"] == "all")  # what interactBOL does, done once
+            self._cskeys[name] = {k: copy.deepcopy(v) for k, v in self._cs[name]["crossSectionControl"].items()}
         return self._cs[name]
 
     def build(self, name, dyn):
@@ -538,12 +553,20 @@ class ManagerAdapter:
 
         key = (name, json.dumps(dyn))
         hit = self._worlds.get(key)
+        xs_settings = self.settings(name)["crossSectionControl"]
+        if set(xs_settings.keys()) != set(self._cskeys[name]) or w_dirty(self, name):
+            # a previous behaviour added or overwrote keys through createRepresentativeBlocksUsingExistingBlocks
+            dict.clear(xs_settings)
+            for k, v in self._cskeys[name].items():
+                dict.__setitem__(xs_settings, k, copy.deepcopy(v))
+            self._dirty.discard(name)
         if hit is not None:
             r, blocks, base = hit
-            for b, d in zip(blocks, dyn):
+            for b, d, xs in zip(blocks, dyn, self.scn[name]["xs"]):
                 b.p.percentBu, b.p.flux = float(d[0]), float(d[2])
                 sorted(b.getComponents())[0].temperatureInC = float(d[1])
                 b.p.envGroup = "A"
+                b.p.xsType = xs
             if [fingerprint(b) for b in blocks] != base or list(r.core.getBlocks()) != blocks:
                 del self._worlds[key]
                 hit = None
@@ -556,8 +579,8 @@ class ManagerAdapter:
             self._worlds[key] = (r, blocks, [fingerprint(b) for b in blocks])
         csm = xsgm.CrossSectionGroupManager(r, self.settings(name))
         csm.interactBOL()
-        w = {"scn": self.scn[name], "r": r, "csm": csm, "blocks": blocks, "err": "", "groups": None, "changed": None,
-             "fp": [block_fingerprint(b) for b in blocks]}
+        w = {"name": name, "scn": self.scn[name], "r": r, "csm": csm, "blocks": blocks, "err": "", "groups": None, "changed": None,
+             "fp": [block_fingerprint(b) for b in blocks], "ret": {}, "orig": {}, "colls": {}}
         orig = csm.makeCrossSectionGroups
 
         def spy():  # observation only: keep the collections the manager works with
@@ -616,6 +639,20 @@ class ManagerAdapter:
                     csm.enableEnvGroupUpdates()
                 elif n == "Make":
                     csm.makeCrossSectionGroups()
+                elif n == "Use":
+                    self._dirty.add(w["name"])
+                    listed = [blocks[i - 1] for i in a["l"]]
+                    out = csm.createRepresentativeBlocksUsingExistingBlocks(listed, csm.representativeBlocks)
+                    w["colls"], w["ret"], w["orig"] = ({}, {}, {}) if out is None else (dict(out[0]), dict(out[1]), dict(out[2]))
+                    for b in listed:  # the caller's part of the workflow: every listed block goes to the collection of its new key
+                        if b.getMicroSuffix() in w["colls"]:
+                            w["colls"][b.getMicroSuffix()].append(b)
+                elif n == "UpdCore":
+                    csm.updateNuclideTemperatures()
+                elif n == "UpdGrp":
+                    csm.updateNuclideTemperatures(w["groups"])
+                elif n == "UpdNew":
+                    csm.updateNuclideTemperatures(w["colls"])
                 elif n == "Create":
                     with model_weights(True):
                         try:
@@ -637,7 +674,9 @@ class ManagerAdapter:
                     raise AssertionError("unknown action " + n)
             finally:
                 after = w["fp"] = [block_fingerprint(b) for b in blocks]
-                for b, f0, f1 in zip(blocks, before, after):
+                for i, (b, f0, f1) in enumerate(zip(blocks, before, after)):
+                    if n == "Use" and (i + 1) in a["l"]:
+                        f0, f1 = without(f0, TYPE_PARAMS), without(f1, TYPE_PARAMS)
                     d = fingerprint_diff(f0, f1)
                     if d:
                         w["changed"] = "%s changed block %s: %s" % (n, b.getName(), d)
@@ -652,40 +691,67 @@ class ManagerAdapter:
         pos = {id(b): i + 1 for i, b in enumerate(blocks)}
         names = {b.getName(): i + 1 for i, b in enumerate(blocks)}
         cls = {v: k for k, v in xsgm.BLOCK_COLLECTIONS.items()}
-        reps = []
-        for xsid, rb in csm.representativeBlocks.items():
+
+        def rep_obs(xsid, rb):
             comps = sorted(rb.getComponents())
-            temps = csm.avgNucTemperatures.get(xsid) or {}
-            reps.append({
-                "id": xsid, "name": rb.getName(), "height": float(rb.getHeight()), "named": names.get(rb.getName(), 0),
-                "dens": [float(rb.getNumberDensity(nuc)) for nuc in NUC],
-                "cdens": [[float(c.getNumberDensity(nuc)) for nuc in NUC] for c in comps],
-                "ctemp": [float(c.temperatureInC) for c in comps],
-                "ntemp": [None if temps.get(nuc) is None else float(temps[nuc]) for nuc in NUC],
-                "bu": float(rb.p.percentBu)})
-        grp = []
-        for xsid, coll in (w["groups"] or {}).items():
-            vt = coll._validRepresentativeBlockTypes
+            return {"id": xsid, "name": rb.getName(), "height": float(rb.getHeight()), "named": names.get(rb.getName(), 0),
+                    "xs": rb.p.xsType, "dens": [float(rb.getNumberDensity(nuc)) for nuc in NUC],
+                    "cdens": [[float(c.getNumberDensity(nuc)) for nuc in NUC] for c in comps],
+                    "ctemp": [float(c.temperatureInC) for c in comps], "bu": float(rb.p.percentBu)}
+
+        def coll_obs(xsid, coll):
+            vt = getattr(coll, "_validRepresentativeBlockTypes", None)
             vt = None if vt is None else sorted(str(f).split(".")[-1].lower() for f in vt)
             filt = {None: "all", ("fuel",): "fuel", ("control", "fuel"): "fuelcontrol", ("control", "fuel", "reflector"): "all"}.get(
                 None if vt is None else tuple(vt), str(vt))
-            grp.append({"id": xsid, "mem": [pos.get(id(b), 0) for b in coll], "rep": cls.get(type(coll), type(coll).__name__),
-                        "filter": filt, "byComp": bool(coll.averageByComponent)})
-        return {"envn": [int(b.p.envGroupNum) for b in blocks], "envl": [b.p.envGroup for b in blocks], "reps": reps,
-                "unrep": list(csm._unrepresentedXSIDs), "grp": grp, "enabled": bool(csm._envGroupUpdatesEnabled), "err": w["err"]}
+            return {"id": xsid, "mem": [pos.get(id(b), 0) for b in coll], "rep": cls.get(type(coll), type(coll).__name__),
+                    "filter": filt, "byComp": bool(coll.averageByComponent)}
+
+        reps = [rep_obs(k, rb) for k, rb in csm.representativeBlocks.items()]
+        ret = sorted((dict(rep_obs(k, rb), orig=w["orig"].get(k)) for k, rb in w["ret"].items()), key=lambda r: r["id"])
+        temps = [{"id": k, "nt": [None if t.get(nuc) is None else float(t[nuc]) for nuc in NUC]}
+                 for k, t in sorted(csm.avgNucTemperatures.items())]
+        return {"envn": [int(b.p.envGroupNum) for b in blocks], "envl": [b.p.envGroup for b in blocks],
+                "xs": [b.p.xsType for b in blocks], "reps": reps, "temps": temps, "ret": ret,
+                "colls": sorted((coll_obs(k, c) for k, c in w["colls"].items()), key=lambda c: c["id"]),
+                "ctl": sorted(csm.cs["crossSectionControl"].keys()),
+                "unrep": list(csm._unrepresentedXSIDs), "grp": [coll_obs(k, c) for k, c in (w["groups"] or {}).items()],
+                "enabled": bool(csm._envGroupUpdatesEnabled), "err": w["err"]}
+
+
+def diff_values(e, g, what):
+    """exact values of one representative block against the projection of the real one"""
+    for k, x in enumerate(e["dens"]):
+        if not close(fr(x), g["dens"][k]):
+            return ".%s.dens: %s %s specification %r, observed %r" % (what, e["id"], NUC[k], fr(x), g["dens"][k])
+    for ci, row in enumerate(e["cdens"]):
+        for k, x in enumerate(row):
+            if not close(fr(x), g["cdens"][ci][k]):
+                return ".%s.cdens: %s component %d %s specification %r, observed %r" % (what, e["id"], ci + 1, NUC[k], fr(x), g["cdens"][ci][k])
+    for ci, x in enumerate(e["ctemp"]):
+        if not close(fr(x), g["ctemp"][ci]):
+            return ".%s.ctemp: %s component %d specification %r, observed %r" % (what, e["id"], ci + 1, fr(x), g["ctemp"][ci])
+    if not close(fr(e["bu"]), g["bu"]):
+        return ".%s.bu: %s specification %r, observed %r" % (what, e["id"], fr(e["bu"]), g["bu"])
+    return None
 
 
 def diff_manager(exp, got, scn):
     """first difference between the specification's observation and the projection of the real manager, or None"""
-    for k in ("envn", "envl", "enabled", "err"):
+    for k in ("envn", "envl", "xs", "enabled", "err"):
         if exp[k] != got[k]:
             return ".%s: specification %r, observed %r" % (k, exp[k], got[k])
     if exp["unrep"] != ["?"] and exp["unrep"] != got["unrep"]:
         return ".unrep: specification %r, observed %r" % (exp["unrep"], got["unrep"])
-    eg = [(g["id"], g["mem"], g["rep"], g["filter"], g["byComp"]) for g in exp["grp"]]
-    gg = [(g["id"], g["mem"], g["rep"], g["filter"], g["byComp"]) for g in got["grp"]]
-    if eg != gg:
-        return ".grp: specification %r, observed %r" % (eg, gg)
+    for what in ("grp", "colls"):
+        eg = [(g["id"], g["mem"], g["rep"], g["filter"], g["byComp"]) for g in sorted(exp[what], key=lambda c: c["id"])]
+        gg = [(g["id"], g["mem"], g["rep"], g["filter"], g["byComp"]) for g in got[what]]
+        if what == "grp":
+            eg = [(g["id"], g["mem"], g["rep"], g["filter"], g["byComp"]) for g in exp[what]]
+        if eg != gg:
+            return ".%s: specification %r, observed %r" % (what, eg, gg)
+    if sorted(exp["ctl"]) != got["ctl"]:
+        return ".ctl: settings keys, specification %r, observed %r" % (sorted(exp["ctl"]), got["ctl"])
     if [r["id"] for r in exp["reps"]] != [r["id"] for r in got["reps"]]:
         return ".reps.id: specification %r, observed %r" % ([r["id"] for r in exp["reps"]], [r["id"] for r in got["reps"]])
     for e, g in zip(exp["reps"], got["reps"]):
@@ -694,21 +760,26 @@ def diff_manager(exp, got, scn):
             return ".reps.src: %s has height %r, its source block %d has %r" % (e["id"], g["height"], src, scn["blk"][src - 1]["h"])
         if "AVG_" not in g["name"] and g["named"] != src:
             return ".reps.src: %s is a copy of block %r, specification: block %d" % (e["id"], g["name"], src)
-        for k, x in enumerate(e["dens"]):
-            if not close(fr(x), g["dens"][k]):
-                return ".reps.dens: %s %s specification %r, observed %r" % (e["id"], NUC[k], fr(x), g["dens"][k])
-        for ci, row in enumerate(e["cdens"]):
-            for k, x in enumerate(row):
-                if not close(fr(x), g["cdens"][ci][k]):
-                    return ".reps.cdens: %s component %d %s specification %r, observed %r" % (e["id"], ci + 1, NUC[k], fr(x), g["cdens"][ci][k])
-        for ci, x in enumerate(e["ctemp"]):
-            if not close(fr(x), g["ctemp"][ci]):
-                return ".reps.ctemp: %s component %d specification %r, observed %r" % (e["id"], ci + 1, fr(x), g["ctemp"][ci])
-        for k, x in enumerate(e["ntemp"]):
-            if g["ntemp"][k] is None or not close(fr(x), g["ntemp"][k]):
-                return ".reps.ntemp: %s %s specification %r, observed %r" % (e["id"], NUC[k], fr(x), g["ntemp"][k])
-        if not close(fr(e["bu"]), g["bu"]):
-            return ".reps.bu: %s specification %r, observed %r" % (e["id"], fr(e["bu"]), g["bu"])
+        d = diff_values(e, g, "reps")
+        if d:
+            return d
+    eret = sorted(exp["ret"], key=lambda r: r["id"])
+    if [(r["id"], r["orig"]) for r in eret] != [(r["id"], r["orig"]) for r in got["ret"]]:
+        return ".ret.id: new key <- original key, specification %r, observed %r" % (
+            [(r["id"], r["orig"]) for r in eret], [(r["id"], r["orig"]) for r in got["ret"]])
+    for e, g in zip(eret, got["ret"]):
+        if g["xs"] != e["id"][0]:
+            return ".ret.xs: the copy for %s has xsType %r" % (e["id"], g["xs"])
+        d = diff_values(e, g, "ret")
+        if d:
+            return d
+    if exp["temps"] != ["?"]:
+        if [t["id"] for t in exp["temps"]] != [t["id"] for t in got["temps"]]:
+            return ".temps.id: specification %r, observed %r" % ([t["id"] for t in exp["temps"]], [t["id"] for t in got["temps"]])
+        for e, g in zip(exp["temps"], got["temps"]):
+            for k, x in enumerate(e["nt"]):
+                if g["nt"][k] is None or not close(fr(x), g["nt"][k]):
+                    return ".temps.nt: %s %s specification %r, observed %r" % (e["id"], NUC[k], fr(x), g["nt"][k])
     return None
 
 
@@ -743,10 +814,13 @@ def mgr_key(scn, d):
         field = ".exception.%s.%s" % (fd.split(":")[1].split()[0], d.get("where", "?"))
     # representatives are only written by createRepresentativeBlocks: a difference in them is attributed to that call
     # even when it is (still) seen after a later action
-    return "mgr:%s:%s:%s" % (scn, "Create" if field.startswith(".reps") else d["action"]["n"], field)
+    # ... likewise block types, returned copies/collections and settings keys are only written by the Use workflow
+    owner = "Create" if field.startswith(".reps") else "Use" if field.split(".")[1] in ("ret", "xs", "colls", "ctl") else d["action"]["n"]
+    return "mgr:%s:%s:%s" % (scn, owner, field)
 
 
-MGR_QUICK_EDGES = 1000
+MGR_QUICK_EDGES = 800
+MGR_CALLS = ("Make", "Create", "Use", "UpdCore", "UpdGrp", "UpdNew")
 
 
 def check_manager(rep, tier, seed):
@@ -776,7 +850,7 @@ def check_manager(rep, tier, seed):
     acts = {}
     for e in edges:
         acts[e["path"][-1]["n"]] = acts.get(e["path"][-1]["n"], 0) + 1
-    missing = [a for a in ("Burn", "Heat", "Flux", "Disable", "Enable", "Make", "Create") if not acts.get(a)]
+    missing = [a for a in ("Burn", "Heat", "Flux", "Disable", "Enable", "Make", "Create", "Use", "UpdCore", "UpdGrp", "UpdNew") if not acts.get(a)]
     if missing or not any(e["obs"]["err"] for e in edges):
         raise tlc.MachineryError("vacuous: manager actions never explored: %s (refusals: %s)" % (missing, any(e["obs"]["err"] for e in edges)))
     rep.extra["manager_edges"] = acts
@@ -784,17 +858,20 @@ def check_manager(rep, tier, seed):
     rng = random.Random(seed * 7919 + 20)
     todo = edges
     if _SELFTEST:
-        calls = [e for e in edges if e["path"][-1]["n"] in ("Make", "Create")]
-        todo = rng.sample(calls, 400)
+        calls = [e for e in edges if e["path"][-1]["n"] in MGR_CALLS]
+        todo = rng.sample(calls, 500)
     elif not thorough and len(edges) > MGR_QUICK_EDGES:
         # environment edits are exercised by the longer behaviours anyway: keep every edge that ends with a manager call
-        calls = [e for e in edges if e["path"][-1]["n"] in ("Make", "Create")]
-        todo = calls if len(calls) <= MGR_QUICK_EDGES else rng.sample(calls, MGR_QUICK_EDGES)
+        # (the small workflow scenario is replayed completely; it holds the longest behaviours)
+        calls = [e for e in edges if e["path"][-1]["n"] in MGR_CALLS]
+        keep = [e for e in calls if e["scn"] == "exist"]
+        rest = [e for e in calls if e["scn"] != "exist"]
+        todo = keep + (rest if len(rest) <= MGR_QUICK_EDGES else rng.sample(rest, MGR_QUICK_EDGES))
     n = nt = 0
     for e in todo:
         d = run_behaviour(ad, e)
         n += 1
-        nt += 1 if e["path"][-1]["n"] in ("Make", "Create") else 0
+        nt += 1 if e["path"][-1]["n"] in MGR_CALLS else 0
         if d:
             rep.violation(mgr_key(e["scn"], d), "real CrossSectionGroupManager diverges from XsGroups (scenario %s) after %s: %s" % (
                 e["scn"], json.dumps([a["n"] for a in e["path"][1:]]), d["first_difference"]),
@@ -821,7 +898,9 @@ def source_of(coll, cands):
 
 def discrete(w, got):
     """the part of the projection that XsGroups_trace compares (DObs)"""
-    return {"envn": got["envn"],
+    return {"envn": got["envn"], "xs": got["xs"],
+            "ret": [{"id": k, "orig": w["orig"][k]} for k in w["ret"]],
+            "colls": [{"id": k, "mem": [w["blocks"].index(b) + 1 for b in c]} for k, c in w["colls"].items()],
             "reps": [{"id": r["id"], "src": w.get("src", {}).get(r["id"], 0)} for r in got["reps"]],
             "unrep": got["unrep"] if not got["err"] else ["?"],
             "grp": [{"id": g["id"], "mem": g["mem"]} for g in got["grp"]],
@@ -842,8 +921,12 @@ def manager_traces(ad, scns, ntraces, nev, seed):
         cur = [list(d) for d in dyn]
         ev = []
         for _ in range(nev):
-            kind = rng.choice(["Burn", "Burn", "Burn", "Heat", "Flux", "Disable", "Enable", "Make", "Make", "Create", "Create", "Create", "Create"])
+            kind = rng.choice(["Burn", "Burn", "Burn", "Heat", "Flux", "Disable", "Enable", "Make", "Make", "Create", "Create", "Create", "Create", "Use"])
+            if kind == "Use" and (name == "two" or not w["csm"].representativeBlocks):
+                kind = "Create"  # the workflow needs representatives and one-letter types
             a = {"n": kind}
+            if kind == "Use":
+                a["l"] = sorted(rng.sample(range(1, nb + 1), rng.randint(1, nb)))
             if kind in ("Burn", "Heat", "Flux"):
                 col, vals = {"Burn": (0, TRACE_BU), "Heat": (1, TRACE_T1), "Flux": (2, TRACE_W)}[kind]
                 i = rng.randrange(nb)
